@@ -83,7 +83,7 @@ Hole == A("var", "x")      \* the variable $x in a constructor template (Batch)
 HXl == A("hexBinary", "0a1b")    HXu == A("hexBinary", "0A1B")    HXo == A("hexBinary", "0A1C")
 HX3 == A("hexBinary", "616263")                                  \* the octets 'abc' ...
 B6a == A("base64Binary", "YWJj") B6s == A("base64Binary", "YW Jj") B6o == A("base64Binary", "YWJk")   \* ... and 'abc' again
-D100 == A("decimal", "1.00")
+D100 == A("decimal", "1.00")     LG1 == A("long", "1")     UB1 == A("unsignedByte", "1")     \* derived integer types: same key by value
 TMz == A("dateTime", "2020-01-01T12:00:00Z")  TMp == A("dateTime", "2020-01-01T13:00:00+01:00")   \* one instant
 TMn == A("dateTime", "2020-01-01T12:00:00")                      \* no timezone: never the same key as one with
 DD1 == A("dayTimeDuration", "P1D")   DD24 == A("dayTimeDuration", "PT24H")   DU1 == A("duration", "P1D")
@@ -92,7 +92,7 @@ QP  == A("QName", "{u}p:a")      QQ == A("QName", "{u}q:a")      \* fn:QName('u'
 B1s == A("boolean", "1")         B0s == A("boolean", "0")        \* xs:boolean('1'), xs:boolean('0')
 NFC == A("string", "e-acute-nfc") NFD == A("string", "e-acute-nfd")   \* U+00E9 / U+0065 U+0301: different strings
 GY  == A("gYear", "2020")        GYz == A("gYear", "2020Z")      GYp == A("gYear", "2020+00:00")
-KeysL == {HXl, HXu, HXo, HX3, B6a, B6s, B6o, I1, D1, D100, E1, TMz, TMp, TMn, DD1, DD24, DU1, YM1, YM12,
+KeysL == {HXl, HXu, HXo, HX3, B6a, B6s, B6o, I1, D1, D100, E1, LG1, UB1, TMz, TMp, TMn, DD1, DD24, DU1, YM1, YM12,
           QP, QQ, QA, BT, B1s, SA, UA, TA, NFC, NFD, GY, GYz, GYp}
 (* THE "FALSY" VALUE OF EVERY TYPE (zero, minus zero, empty string, false, empty binary, zero duration) *)
 D0  == A("decimal", "0")   E0 == A("double", "0")   EM0 == A("double", "-0")   F0 == A("float", "0")   FM0 == A("float", "-0")
@@ -105,7 +105,7 @@ KeysX == {IB1, DB1, IB0, EB0, D01, E01, D05, E05, F05, I1, E1}
 Keys13 == {I1, D1, E1, F1, SA, UA, TA, EN, FN, EI, BT, DT, QA}     \* the alphabet named by the property
 KeysExt == Keys13 \cup {I0, BF, FI, I2, SB}
 
-IsNumeric(k)    == k.a \in {"integer", "decimal", "double", "float"}
+IsNumeric(k)    == k.a \in {"integer", "decimal", "double", "float", "long", "unsignedByte"}   \* + types derived from xs:integer
 IsStringLike(k) == k.a \in {"string", "anyURI", "untypedAtomic"}
 
 Digit(d) == CASE d = 0 -> "0" [] d = 1 -> "1" [] d = 2 -> "2" [] d = 3 -> "3" [] d = 4 -> "4"
@@ -372,6 +372,7 @@ Keys7 == {I1, D1, SA, TA, EN, FN, BT}     \* one or two representatives of every
    "mixed" / "mixed1"  a map and an array together (values extracted from one another, nested containers)
    "keysx" / "mergex"  the same with the keys of KeysX (exact comparison of numeric keys across types)
    "keysl" / "mergel"  keys with several lexical forms and the falsy value of every type (KeysL, KeysZ)
+   "arrtyped" positions of derived integer types / non-integers; "mergeopts" the options map of map:merge
    "lookupseq" the lookup operator with a SEQUENCE of maps / arrays on the left, every key specifier form
    "batch"    functions and lookups applied directly to constructor expressions, once per binding of $x
    "selftest" the in-place variant (InPlace = TRUE) that TLC must reject
@@ -420,6 +421,8 @@ Seeds ==
     [] Profile = "keysl"    -> {S1(M1(k, V1)) : k \in KeysLZ}
     [] Profile = "mergel"   -> {S2(M1(pr[1], V1), M1(pr[2], V2)) : pr \in {x \in KeysLZ \X KeysLZ : RelatedKeys(x[1], x[2])}}
     [] Profile = "lookupseq" -> LookupSeqSeeds
+    [] Profile = "arrtyped" -> {S2(Ar(<<V1, V2, V12>>), Ar(<<VE>>))}
+    [] Profile = "mergeopts" -> {S2(M2(SA, V1, SB, V2), M2(SB, V12, I1, VE)), S2(M1(I1, V1), M1(D1, V2)), S2(M1(SA, V1), M1(SB, V2))}
     [] Profile = "merge"    -> {S2(M1(k1, V1), M1(k2, V2)) : k1, k2 \in KeysExt}
     [] Profile = "merge13"  -> {S2(M1(k1, V1), M1(k2, V2)) : k1, k2 \in Keys13}
     [] Profile = "mapvals"  -> {S1(mm) : mm \in MapSeedsVals}
@@ -433,7 +436,7 @@ Seeds ==
                                      ELSE {S2(M1(EN, V12), Ar(<<VE, V12, VA>>)), S2(M2(D1, VM, TA, VE), EmptyArr)})
     [] Profile = "mixed1"   -> {S2(M1(I1, VA), Ar(<<V1, VM>>))}
     [] Profile = "selftest" -> {S1(Ar(<<V1, V2>>))}
-NSeed == CASE Profile \in {"merge", "merge13", "mergex", "mergel", "deq", "mixed", "mixed1"} -> 2
+NSeed == CASE Profile \in {"merge", "merge13", "mergex", "mergel", "deq", "mixed", "mixed1", "arrtyped", "mergeopts"} -> 2
            [] Profile \in {"cons", "batch"} -> 0 [] Profile = "lookupseq" -> 3 [] OTHER -> 1
 
 MapActs == {"MapPut", "MapRemove", "MapGet", "MapContains", "MapSize", "MapKeys", "MapFind", "MapForEach",
@@ -447,6 +450,8 @@ Acts ==
     [] Profile = "keysl"    -> {"MapPut", "MapRemove", "MapGet", "MapContains", "MapSize", "MapKeys", "MapFind", "Lookup",
                                 "MapEntry", "MapForEach"}
     [] Profile = "lookupseq" -> {"LookupSeq"}
+    [] Profile = "arrtyped" -> {"ArrTyped"}
+    [] Profile = "mergeopts" -> {"MapMergeOpt"}
     [] Profile = "mapvals"  -> MapActs
     [] Profile \in {"arrays", "arrays3", "arrays2"} -> ArrActs
     [] Profile = "cons"     -> {"MapCons", "ArrCons"}
@@ -573,6 +578,38 @@ ArrSize(h)         == On("ArrSize") /\ h \in ArrHs /\ Do(OpResult("ArrSize", MV(
 
 Lookup(h, ks)      == On("Lookup") /\ h \in MapHs \cup ArrHs /\ (ks[1] = "paren" /\ h \in MapHs => RelatedToMap(MV(h), ks[2])) /\ Do(OpResult("Lookup", MV(h), <<ks>>))
 
+(* TYPED POSITIONS: the position / start argument of the array functions, of the dynamic call $a(i) and of
+   the lookup $a?(i) is an xs:integer: every type derived from xs:integer (by constructor, cast, arithmetic,
+   fn:count) is accepted and means its value; xs:decimal, xs:double, xs:string, xs:boolean are a type error
+   XPTY0004 (no promotion to xs:integer).  ty is the way the position is written by the binding. *)
+IntegerWays == {"literal", "xs:integer", "xs:long", "xs:short", "xs:unsignedByte", "xs:positiveInteger", "cast-int", "arith", "count"}
+NonIntegerWays == {"decimal", "double", "string", "boolean"}
+TypedOps == {"ArrGet", "Call", "LookupParen", "ArrPut", "ArrRemove", "ArrInsertBefore", "ArrSubarray2", "ArrSubarray3"}
+WayApplies(ty, i) == /\ (ty \in {"xs:unsignedByte", "count"} => i >= 0) /\ (ty = "xs:positiveInteger" => i >= 1)
+                     /\ (ty = "boolean" => i = 1)
+TypedResult(op, it, i, ty) ==
+  IF ty \in NonIntegerWays THEN Err("XPTY0004")
+  ELSE CASE op \in {"ArrGet", "Call", "LookupParen"} -> AGet(it, i)
+         [] op = "ArrPut" -> APut(it, i, V2)
+         [] op = "ArrRemove" -> ARemove(it, <<i>>)
+         [] op = "ArrInsertBefore" -> AInsert(it, i, V2)
+         [] op = "ArrSubarray2" -> ASub2(it, i)
+         [] op = "ArrSubarray3" -> ASub3(it, i, 1)
+ArrTyped(h, op, i, ty) == On("ArrTyped") /\ h \in ArrHs /\ WayApplies(ty, i) /\ Do(TypedResult(op, MV(h), i, ty))
+
+(* THE OPTIONS MAP of map:merge (F&O 3.1 17.1.3 + 1.5 option parameter conventions): an absent 'duplicates'
+   entry (map{}, only unrelated entries) means the default use-first; the value is converted to xs:string
+   (xs:untypedAtomic, xs:anyURI are accepted); a value that is not one of the five policies: FOJS0005;
+   a value of another type: a type error. *)
+MergeOptions == {"empty", "unrelated", "untyped:use-last", "anyURI:use-last", "illegal", "wrongtype"}
+MergeOptResults(ms, opt) ==
+  CASE opt \in {"empty", "unrelated"} -> MergeResults(ms, "default")
+    [] opt \in {"untyped:use-last", "anyURI:use-last"} -> MergeResults(ms, "use-last")
+    [] opt = "illegal" -> {Err("FOJS0005")}
+    [] opt = "wrongtype" -> {Err("XPTY0004")}
+MapMergeOpt(hs, opt) == On("MapMergeOpt") /\ (\A i \in 1..Len(hs) : hs[i] \in MapHs)
+                        /\ \E res \in MergeOptResults([i \in 1..Len(hs) |-> MV(hs[i])], opt) : Do(res)
+
 (* LOOKUP ON A SEQUENCE: E?KeySpecifier with several maps / arrays on the left (XPath 3.1 3.11.3.2:
    "for $m in E return for $k in KS return $m($k)"): the concatenation over the ITEMS, then over the KEYS.
    <<"parens", <<k1, k2>>>> is the parenthesized key specifier with a sequence of 0, 1, 2 keys. *)
@@ -653,6 +690,8 @@ Next ==
      \/ \E h \in Handles, ks \in LookupSpecs : Lookup(h, ks)
      \/ \E pr \in DeqPairs : DeepEqual(pr[1], pr[2])
      \/ \E hs \in LookupSeqHs, ks \in LookupSeqSpecs : LookupSeq(hs, ks)
+     \/ \E h \in 1..2, op \in TypedOps, i \in {0, 1, 2, 4}, ty \in IntegerWays \cup NonIntegerWays : ArrTyped(h, op, i, ty)
+     \/ \E hs \in {<<1, 2>>, <<2, 1>>, <<1>>}, opt \in MergeOptions : MapMergeOpt(hs, opt)
      \/ \E t \in MapTmpls \cup ArrTmpls, ks \in BLookups, xs \in BatchXs : Batch("Lookup", t, <<ks>>, xs)
      \/ \E a \in {"MapGet", "MapContains", "MapFind"}, t \in MapTmpls, k \in BKeys, xs \in BatchXs : Batch(a, t, <<k>>, xs)
      \/ \E t \in MapTmpls, k \in BKeys, xs \in BatchXs : Batch("MapRemove", t, <<<<k>>>>, xs)
@@ -849,7 +888,7 @@ SameKeyLaws ==
   /\ \A k1, k2, k3 \in KeysL \cup KeysZ : (SameKey(k1, k2) /\ SameKey(k2, k3)) => SameKey(k1, k3)
   /\ SameKey(HXl, HXu) /\ ~SameKey(HXu, HXo) /\ SameKey(B6a, B6s) /\ ~SameKey(B6a, B6o)
   /\ ~SameKey(HX3, B6a) /\ ~SameKey(HX0, B60)                           \* same octets, types not comparable
-  /\ SameKey(D1, D100) /\ SameKey(I1, D100) /\ SameKey(E1, D100)
+  /\ SameKey(D1, D100) /\ SameKey(I1, D100) /\ SameKey(E1, D100) /\ SameKey(LG1, I1) /\ SameKey(UB1, E1) /\ SameKey(LG1, UB1)
   /\ SameKey(TMz, TMp) /\ ~SameKey(TMz, TMn) /\ ~SameKey(TMp, TMn)       \* timezone presence
   /\ SameKey(DD1, DD24) /\ SameKey(DD1, DU1) /\ SameKey(YM1, YM12) /\ ~SameKey(DD1, YM1) /\ SameKey(DD0, YM0)
   /\ SameKey(QP, QQ) /\ ~SameKey(QP, QA) /\ SameKey(BT, B1s) /\ SameKey(BF, B0s) /\ ~SameKey(B1s, I1) /\ ~SameKey(B0s, I0)
@@ -869,5 +908,5 @@ ASSUME Profile = "deq" => DeqUniverseLaws     \* 51^3 triples: once, in the run 
 Expanded == Len(store) - NSeed < Depth
 Laws == /\ WellFormed /\ DeepEqLaws
         /\ (Expanded /\ Profile # "deq") => PairLaws /\ ArrLaws
-        /\ (Expanded /\ Profile \notin {"deq", "merge", "merge13", "mergex", "mergel", "lookupseq"}) => MapLaws   \* single-entry maps: see the keys profiles
+        /\ (Expanded /\ Profile \notin {"deq", "merge", "merge13", "mergex", "mergel", "lookupseq", "arrtyped"}) => MapLaws   \* single-entry maps: see the keys profiles
 =============================================================================
